@@ -8,8 +8,8 @@ extern crate alloc;
 fn nofmt(_a: core::fmt::Arguments<'_>) -> alloc::string::String { alloc::string::String::new() }
 fn nolog(_l: iceoryx2_log::LogLevel, _o: core::fmt::Arguments, _a: core::fmt::Arguments) {}
 
-pub(crate) const LEN: usize = 5;
-pub(crate) const LEN2: usize = 3;
+pub(crate) const LEN: usize = 3;
+pub(crate) const LEN2: usize = 2;
 
 /// byte-level statement of the rule; returns the length written to `out`
 fn spec_normalize(v: &[u8], out: &mut [u8; LEN + 1]) -> usize {
@@ -43,7 +43,7 @@ fn any_bytes<const N: usize>() -> ([u8; N], usize) {
 }
 
 #[kani::proof]
-#[kani::unwind(8)]
+#[kani::unwind(6)]
 #[kani::stub(alloc::fmt::format, nofmt)]
 #[kani::stub(iceoryx2_log::__internal_print_log_msg, nolog)]
 fn path_normalize_keeps_every_real_entry() {
